@@ -23,10 +23,20 @@ class FakeTransport:
         self.closed = False
         self.close_calls = 0
         self.lost_called = False
+        self.pause_after = None      # bytes after which the transport signals pause_writing (the peer has stopped reading)
+        self.paused = False
+        self.nwritten = 0
 
     # -- what the protocol calls -------------------------------------------------
     def write(self, data) -> None:
         (self.dropped if self.closed else self.writes).append(bytes(data))
+        self.nwritten += len(data)
+        if self.pause_after is not None and not self.paused and not self.closed and self.nwritten > self.pause_after:
+            # asyncio signals it synchronously inside write(); it is never resumed: the peer reads nothing more
+            self.paused = True
+            pw = getattr(self.protocol, "pause_writing", None)
+            if pw is not None:
+                pw()
 
     def close(self) -> None:
         self.close_calls += 1
@@ -118,6 +128,7 @@ class VLoop(asyncio.SelectorEventLoop):
             await asyncio.sleep(script.connect_delay)
         proto = protocol_factory()
         tr = FakeTransport(self, proto)
+        tr.pause_after = getattr(script, "pause_after", None)
         script.transport = tr
         self.conns.append(tr)
         proto.connection_made(tr)
